@@ -54,6 +54,10 @@ fn global_of(g: u16) -> GlobalPermissions {
 
 impl Rec {
     fn permissions(&self) -> Permissions {
+        self.permissions_for(1)
+    }
+    /// the same record attached to stream `stream_id`
+    fn permissions_for(&self, stream_id: u32) -> Permissions {
         let streams = self.s.map(|s| {
             let topics = match self.tmode {
                 0 => None,
@@ -69,7 +73,7 @@ impl Rec {
             };
             let mut m = AHashMap::new();
             m.insert(
-                1u32,
+                stream_id,
                 StreamPermissions {
                     manage_stream: s & 1 != 0,
                     read_stream: s & 2 != 0,
@@ -265,8 +269,12 @@ pub fn plan(tier: &str) -> (PropMeta, Vec<Job>) {
     for shard in 0..shards {
         jobs.push(Job { prop: "C09".into(), tier: tier.into(), spec: serde_json::to_value(PermJob { part: 1, shard, shards, full: true }).unwrap() });
     }
-    for part in [2u8, 3, 4, 6] {
+    for part in [2u8, 4, 6] {
         jobs.push(Job { prop: "C09".into(), tier: tier.into(), spec: serde_json::to_value(PermJob { part, shard: 0, shards: 1, full: tier != "quick" }).unwrap() });
+    }
+    let wire = (WIRE_TARGETS.len() * WIRE_SLICES) as u16;
+    for shard in 0..wire {
+        jobs.push(Job { prop: "C09".into(), tier: tier.into(), spec: serde_json::to_value(PermJob { part: 3, shard, shards: wire, full: tier != "quick" }).unwrap() });
     }
     let hist_ops = (HIST_USERS.len() * (hist_records().len() + 1)) as u16;
     for first in 0..hist_ops {
@@ -275,7 +283,7 @@ pub fn plan(tier: &str) -> (PropMeta, Vec<Job>) {
     let meta = PropMeta {
         id: "C09",
         level: "exploration",
-        rule: "part 1: all 2^10 global records x (no stream record | 2^6 stream-1 flags x (no topic table | empty table | 2^4 flags for topic 1)) = 1 180 672 permission records (plus the same topic flags attached to topic 2 for the id-confusion check), each evaluated by every one of the 35 real rule functions on targets (stream,topic) in {1,2}x{1,2}; oracles: no panic, monotonicity under every single added flag / added record, isolation (stream 1 records never open stream 2; a topic-1 record never opens topic 2), topic-id symmetry of stream-level operations, root grants everything, and an upper bound from the most generous reading of the documented hierarchy. A case is non-trivial and distinct by its record. part 2: every System operation under sessions that never logged in / are stale; part 3: System outcome = rule outcome for one user per record in {none, each single flag, root}; part 4: every SDK call over TCP before login, and permission updates / user deletions observed on an already open second connection; part 6: every HTTP route (44 method/path pairs with plausible bodies) with no Authorization header, a garbage bearer, a token signed with another key, and basic credentials: HTTP 401 unless the path is one the server declares public, catalogue and files unchanged; part 5: every history (depth 3 quick / 4 thorough) of create-or-update and delete operations for two users over 12 permission records (one per table / index the Permissioner keeps, for streams 1 and 2, so user ids coincide and differ with stream ids) on the real Permissioner: every rule outcome for every user must equal that of a Permissioner given only the final records, and a deleted user is denied everything".into(),
+        rule: "part 1: all 2^10 global records x (no stream record | 2^6 stream-1 flags x (no topic table | empty table | 2^4 flags for topic 1)) = 1 180 672 permission records (plus the same topic flags attached to topic 2 for the id-confusion check), each evaluated by every one of the 35 real rule functions on targets (stream,topic) in {1,2}x{1,2}; oracles: no panic, monotonicity under every single added flag / added record, isolation (stream 1 records never open stream 2; a topic-1 record never opens topic 2), topic-id symmetry of stream-level operations, root grants everything, and an upper bound from the most generous reading of the documented hierarchy. A case is non-trivial and distinct by its record. part 2: every System operation under sessions that never logged in / are stale; part 3: for each of the 30 permission-checked System operations on each target (stream,topic) in {(1,1),(2,1),(1,2)} (stream id and topic id differ, so a call site that swaps or fixes an argument shows) and one user per record in {none, root, every single flag, every pair of single flags} over the 38 flags (10 global, 6 per record of stream 1 / stream 2, 4 per topic record of (stream,topic) in {1,2}x{1,2}) = 743 records (pairs, because most operations look their target up under one rule before asking their own), in a world that is fresh after every performed change: the operation is never performed when its rule function says unauthorized; part 4: every SDK call over TCP before login, and permission updates / user deletions observed on an already open second connection; part 6: every HTTP route (44 method/path pairs with plausible bodies) with no Authorization header, a garbage bearer, a token signed with another key, and basic credentials: HTTP 401 unless the path is one the server declares public, catalogue and files unchanged; part 5: every history (depth 3 quick / 4 thorough) of create-or-update and delete operations for two users over 12 permission records (one per table / index the Permissioner keeps, for streams 1 and 2, so user ids coincide and differ with stream ids) on the real Permissioner: every rule outcome for every user must equal that of a Permissioner given only the final records, and a deleted user is denied everything".into(),
         bounds: json!({"records": 1180672, "rule_functions": 35, "targets": TARGETS}),
         assumptions: vec![
             "the reference for the upper bound resolves every ambiguity of the documentation towards 'allowed' (manage_* includes sending), so it can only under-report".into(),
@@ -436,6 +444,79 @@ fn part1(pj: &PermJob, res: &mut JobResult) {
 
 // ---------------------------------------------------------------- part 2-4: wiring
 
+/// part 3 targets (stream, topic) and the number of record slices a target is split into
+const WIRE_TARGETS: [(u32, u32); 3] = [(1, 1), (2, 1), (1, 2)];
+const WIRE_SLICES: usize = 16;
+/// part 3 operations that change nothing when performed: the world is kept for the next case
+const WIRE_READ_ONLY: [usize; 10] = [0, 1, 6, 7, 14, 18, 20, 23, 24, 28];
+
+#[derive(Clone, Copy, Debug)]
+enum Flag {
+    G(u8),
+    S(u32, u8),
+    T(u32, u32, u8),
+}
+
+impl Flag {
+    fn label(&self) -> String {
+        match self {
+            Flag::G(b) => format!("global bit {b}"),
+            Flag::S(x, b) => format!("stream-{x} bit {b}"),
+            Flag::T(x, y, b) => format!("stream-{x} topic-{y} bit {b}"),
+        }
+    }
+}
+
+fn wire_flags() -> Vec<Flag> {
+    let mut f: Vec<Flag> = (0..10).map(Flag::G).collect();
+    for x in [1u32, 2] {
+        f.extend((0..6).map(|b| Flag::S(x, b)));
+        for y in [1u32, 2] {
+            f.extend((0..4).map(|b| Flag::T(x, y, b)));
+        }
+    }
+    f
+}
+
+/// The permission record holding exactly the given flags.
+fn build_permissions(flags: &[Flag]) -> Permissions {
+    let mut g = 0u16;
+    let mut sbits: std::collections::BTreeMap<u32, u8> = Default::default();
+    let mut tbits: std::collections::BTreeMap<(u32, u32), u8> = Default::default();
+    for f in flags {
+        match *f {
+            Flag::G(b) => g |= 1 << b,
+            Flag::S(x, b) => *sbits.entry(x).or_default() |= 1 << b,
+            Flag::T(x, y, b) => {
+                sbits.entry(x).or_default();
+                *tbits.entry((x, y)).or_default() |= 1 << b;
+            }
+        }
+    }
+    let mut streams = AHashMap::new();
+    for (x, s) in &sbits {
+        let mut topics = AHashMap::new();
+        for ((tx, y), t) in &tbits {
+            if tx == x {
+                topics.insert(*y, TopicPermissions { manage_topic: t & 1 != 0, read_topic: t & 2 != 0, poll_messages: t & 4 != 0, send_messages: t & 8 != 0 });
+            }
+        }
+        streams.insert(
+            *x,
+            StreamPermissions {
+                manage_stream: s & 1 != 0,
+                read_stream: s & 2 != 0,
+                manage_topics: s & 4 != 0,
+                read_topics: s & 8 != 0,
+                poll_messages: s & 16 != 0,
+                send_messages: s & 32 != 0,
+                topics: Some(topics),
+            },
+        );
+    }
+    Permissions { global: global_of(g), streams: if streams.is_empty() { None } else { Some(streams) } }
+}
+
 fn sid(n: u32) -> Identifier {
     Identifier::numeric(n).unwrap()
 }
@@ -507,6 +588,11 @@ fn prelude() -> Vec<crate::cat::COp> {
         COp::Send(n(1), n(1), 1, 2),
         COp::CreateStream(Some(2), "bbb".into()),
         COp::CreateTopic(n(2), Some(1), "xxx".into(), 1),
+        COp::CreateGroup(n(2), n(1), Some(1), "ggg".into()),
+        COp::Send(n(2), n(1), 1, 2),
+        COp::CreateTopic(n(1), Some(2), "yyy".into(), 1),
+        COp::CreateGroup(n(1), n(2), Some(1), "ggg".into()),
+        COp::Send(n(1), n(2), 1, 2),
         COp::CreateUser("usr".into(), "pw-one-1".into()),
     ]
 }
@@ -649,26 +735,42 @@ fn part23(pj: &PermJob, res: &mut JobResult) {
     let cfg = NodeCfg { threshold: 1, tick: 0, ..Default::default() };
     let tpl = build_cat_template(&scratch, &cfg, &prelude(), "perm");
     let addr: std::net::SocketAddr = "127.0.0.1:5".parse().unwrap();
-    // records to wire-check: none, every single global flag, every single stream flag, root
+    // records to wire-check: none, root, every single flag F and every pair of single flags {F, F'},
+    // where F ranges over the 10 global flags, the 6 flags of a record for stream 1 / stream 2 and the
+    // 4 flags of a topic record for (stream, topic) in {1,2}x{1,2} (pairs, because most operations look
+    // the target up under one rule before asking the rule of the operation itself); targets with
+    // stream id != topic id, so that swapped or constant arguments at a call site show
+    let (st, tp) = WIRE_TARGETS[(pj.shard as usize) % WIRE_TARGETS.len()];
+    let slice = (pj.shard as usize) / WIRE_TARGETS.len();
     let mut recs: Vec<(String, Option<Permissions>)> = vec![("none".into(), None), ("root".into(), Some(Permissions::root()))];
-    for b in 0..10 {
-        recs.push((format!("global bit {b}"), Some(Rec { g: 1 << b, s: None, tmode: 0, t: 0, tid: 1 }.permissions())));
+    let flags = wire_flags();
+    for (i, f) in flags.iter().enumerate() {
+        recs.push((f.label(), Some(build_permissions(&[*f]))));
+        for g in flags.iter().skip(i + 1) {
+            recs.push((format!("{} + {}", f.label(), g.label()), Some(build_permissions(&[*f, *g]))));
+        }
     }
-    for b in 0..6 {
-        recs.push((format!("stream-1 bit {b}"), Some(Rec { g: 0, s: Some(1 << b), tmode: 1, t: 0, tid: 1 }.permissions())));
-    }
-    for b in 0..4 {
-        recs.push((format!("topic-1 bit {b}"), Some(Rec { g: 0, s: Some(0), tmode: 2, t: 1 << b, tid: 1 }.permissions())));
+    if pj.part == 3 {
+        recs = recs.into_iter().enumerate().filter(|(i, _)| i % WIRE_SLICES == slice).map(|(_, r)| r).collect();
     }
     if pj.part == 2 {
         recs = vec![("unauthenticated".into(), None)];
     }
+    // a fresh world whenever the previous case performed an operation that changes something
+    // (authorised destructive operations really run); refused and read-only cases keep theirs
+    let mut world: Option<CatWorld> = None;
     for (label, perms) in recs {
-        // one fresh world per (record, operation): authorised destructive operations really run
         let nops = 30;
         for opi in 0..nops {
-            let mut w = CatWorld::new(&scratch, &tpl, Transports::NONE).expect("world");
-            res.executions += 1;
+            let mut w = match world.take() {
+                Some(w) => w,
+                None => {
+                    res.executions += 1;
+                    CatWorld::new(&scratch, &tpl, Transports::NONE).expect("world")
+                }
+            };
+            res.bump("cases");
+            let mut keep = pj.part == 3;
             let shared = w.node.shared();
             let sessions: Vec<(String, Session)> = if pj.part == 2 {
                 let stale = Session::new(9, 1, addr);
@@ -703,44 +805,44 @@ fn part23(pj: &PermJob, res: &mut JobResult) {
                     }
                     match opi {
                         0 => run!("find_streams", s.find_streams(&sess).map(|_| ()), p.get_streams(2)),
-                        1 => run!("find_stream", s.find_stream(&sess, &sid(1)).map(|_| ()), p.get_stream(2, 1)),
+                        1 => run!("find_stream", s.find_stream(&sess, &sid(st)).map(|_| ()), p.get_stream(2, st)),
                         2 => run!("create_stream", s.create_stream(&sess, None, "zzz").await.map(|_| ()), p.create_stream(2)),
-                        3 => run!("update_stream", s.update_stream(&sess, &sid(1), "renamed").await, p.update_stream(2, 1)),
-                        4 => run!("delete_stream", s.delete_stream(&sess, &sid(1)).await.map(|_| ()), p.delete_stream(2, 1)),
-                        5 => run!("purge_stream", s.purge_stream(&sess, &sid(1)).await, p.purge_stream(2, 1)),
-                        6 => run!("find_topic", s.find_topic(&sess, &sid(1), &sid(1)).map(|_| ()), p.get_topic(2, 1, 1)),
-                        7 => run!("find_topics", s.find_topics(&sess, &sid(1)).map(|_| ()), p.get_topics(2, 1)),
+                        3 => run!("update_stream", s.update_stream(&sess, &sid(st), "renamed").await, p.update_stream(2, st)),
+                        4 => run!("delete_stream", s.delete_stream(&sess, &sid(st)).await.map(|_| ()), p.delete_stream(2, st)),
+                        5 => run!("purge_stream", s.purge_stream(&sess, &sid(st)).await, p.purge_stream(2, st)),
+                        6 => run!("find_topic", s.find_topic(&sess, &sid(st), &sid(tp)).map(|_| ()), p.get_topic(2, st, tp)),
+                        7 => run!("find_topics", s.find_topics(&sess, &sid(st)).map(|_| ()), p.get_topics(2, st)),
                         8 => run!(
                             "create_topic",
-                            s.create_topic(&sess, &sid(1), None, "zzz", 1, IggyExpiry::NeverExpire, CompressionAlgorithm::None, MaxTopicSize::Unlimited, None).await.map(|_| ()),
-                            p.create_topic(2, 1)
+                            s.create_topic(&sess, &sid(st), None, "zzz", 1, IggyExpiry::NeverExpire, CompressionAlgorithm::None, MaxTopicSize::Unlimited, None).await.map(|_| ()),
+                            p.create_topic(2, st)
                         ),
                         9 => run!(
                             "update_topic",
-                            s.update_topic(&sess, &sid(1), &sid(1), "renamed", IggyExpiry::NeverExpire, CompressionAlgorithm::None, MaxTopicSize::Unlimited, None).await.map(|_| ()),
-                            p.update_topic(2, 1, 1)
+                            s.update_topic(&sess, &sid(st), &sid(tp), "renamed", IggyExpiry::NeverExpire, CompressionAlgorithm::None, MaxTopicSize::Unlimited, None).await.map(|_| ()),
+                            p.update_topic(2, st, tp)
                         ),
-                        10 => run!("delete_topic", s.delete_topic(&sess, &sid(1), &sid(1)).await, p.delete_topic(2, 1, 1)),
-                        11 => run!("purge_topic", s.purge_topic(&sess, &sid(1), &sid(1)).await, p.purge_topic(2, 1, 1)),
-                        12 => run!("create_partitions", s.create_partitions(&sess, &sid(1), &sid(1), 1).await, p.create_partitions(2, 1, 1)),
-                        13 => run!("delete_partitions", s.delete_partitions(&sess, &sid(1), &sid(1), 1).await, p.delete_partitions(2, 1, 1)),
+                        10 => run!("delete_topic", s.delete_topic(&sess, &sid(st), &sid(tp)).await, p.delete_topic(2, st, tp)),
+                        11 => run!("purge_topic", s.purge_topic(&sess, &sid(st), &sid(tp)).await, p.purge_topic(2, st, tp)),
+                        12 => run!("create_partitions", s.create_partitions(&sess, &sid(st), &sid(tp), 1).await, p.create_partitions(2, st, tp)),
+                        13 => run!("delete_partitions", s.delete_partitions(&sess, &sid(st), &sid(tp), 1).await, p.delete_partitions(2, st, tp)),
                         14 => run!(
                             "poll_messages",
-                            s.poll_messages(&sess, &cons, &sid(1), &sid(1), Some(1), server::streaming::systems::messages::PollingArgs::new(PollingStrategy::offset(0), 1, false)).await.map(|_| ()),
-                            p.poll_messages(2, 1, 1)
+                            s.poll_messages(&sess, &cons, &sid(st), &sid(tp), Some(1), server::streaming::systems::messages::PollingArgs::new(PollingStrategy::offset(0), 1, false)).await.map(|_| ()),
+                            p.poll_messages(2, st, tp)
                         ),
                         15 => run!(
                             "append_messages",
-                            s.append_messages(&sess, sid(1), sid(1), Partitioning::partition_id(1), vec![Message::new(None, bytes::Bytes::from_static(b"x"), None)], None).await,
-                            p.append_messages(2, 1, 1)
+                            s.append_messages(&sess, sid(st), sid(tp), Partitioning::partition_id(1), vec![Message::new(None, bytes::Bytes::from_static(b"x"), None)], None).await,
+                            p.append_messages(2, st, tp)
                         ),
-                        16 => run!("flush_unsaved_buffer", s.flush_unsaved_buffer(&sess, sid(1), sid(1), 1, false).await, p.append_messages(2, 1, 1)),
-                        17 => run!("store_consumer_offset", s.store_consumer_offset(&sess, cons.clone(), &sid(1), &sid(1), Some(1), 0).await, p.store_consumer_offset(2, 1, 1)),
-                        18 => run!("get_consumer_offset", s.get_consumer_offset(&sess, &cons, &sid(1), &sid(1), Some(1)).await.map(|_| ()), p.get_consumer_offset(2, 1, 1)),
-                        19 => run!("delete_consumer_offset", s.delete_consumer_offset(&sess, cons.clone(), &sid(1), &sid(1), Some(1)).await, p.delete_consumer_offset(2, 1, 1)),
-                        20 => run!("get_consumer_groups", s.get_consumer_groups(&sess, &sid(1), &sid(1)).map(|_| ()), p.get_consumer_groups(2, 1, 1)),
-                        21 => run!("create_consumer_group", s.create_consumer_group(&sess, &sid(1), &sid(1), None, "zzz").await.map(|_| ()), p.create_consumer_group(2, 1, 1)),
-                        22 => run!("delete_consumer_group", s.delete_consumer_group(&sess, &sid(1), &sid(1), &sid(1)).await, p.delete_consumer_group(2, 1, 1)),
+                        16 => run!("flush_unsaved_buffer", s.flush_unsaved_buffer(&sess, sid(st), sid(tp), 1, false).await, p.append_messages(2, st, tp)),
+                        17 => run!("store_consumer_offset", s.store_consumer_offset(&sess, cons.clone(), &sid(st), &sid(tp), Some(1), 0).await, p.store_consumer_offset(2, st, tp)),
+                        18 => run!("get_consumer_offset", s.get_consumer_offset(&sess, &cons, &sid(st), &sid(tp), Some(1)).await.map(|_| ()), p.get_consumer_offset(2, st, tp)),
+                        19 => run!("delete_consumer_offset", s.delete_consumer_offset(&sess, cons.clone(), &sid(st), &sid(tp), Some(1)).await, p.delete_consumer_offset(2, st, tp)),
+                        20 => run!("get_consumer_groups", s.get_consumer_groups(&sess, &sid(st), &sid(tp)).map(|_| ()), p.get_consumer_groups(2, st, tp)),
+                        21 => run!("create_consumer_group", s.create_consumer_group(&sess, &sid(st), &sid(tp), None, "zzz").await.map(|_| ()), p.create_consumer_group(2, st, tp)),
+                        22 => run!("delete_consumer_group", s.delete_consumer_group(&sess, &sid(st), &sid(tp), &sid(1)).await, p.delete_consumer_group(2, st, tp)),
                         23 => run!("get_users", s.get_users(&sess).await.map(|_| ()), p.get_users(2)),
                         24 => run!("find_user", s.find_user(&sess, &sid(1)).map(|_| ()), p.get_user(2)),
                         25 => run!("create_user", s.create_user(&sess, "newuser", "secret123", UserStatus::Active, None).await.map(|_| ()), p.create_user(2)),
@@ -752,7 +854,10 @@ fn part23(pj: &PermJob, res: &mut JobResult) {
                 });
                 res.evaluations += 1;
                 match r {
-                    Err(p) => res.violations.push(v("C09:system-op-panicked", format!("System operation #{opi} under session '{sl}' panicked: {p}"), json!({"kind":"perm23","op": opi, "session": sl}))),
+                    Err(p) => {
+                        keep = false;
+                        res.violations.push(v("C09:system-op-panicked", format!("System operation #{opi} under session '{sl}' panicked: {p}"), json!({"kind":"perm23","op": opi, "session": sl})))
+                    }
                     Ok((name, denied, rule)) => {
                         if pj.part == 2 {
                             if !denied {
@@ -774,12 +879,15 @@ fn part23(pj: &PermJob, res: &mut JobResult) {
                             if !denied && !rule_ok {
                                 res.violations.push(v(
                                     &format!("C09:wiring:{name}"),
-                                    format!("user with record '{label}': System::{name} was performed although the rule function for it says unauthorized"),
-                                    json!({"kind":"perm23","op": name, "record": label}),
+                                    format!("user with record '{label}': System::{name} on stream {st} topic {tp} was performed although the rule function for it says unauthorized"),
+                                    json!({"kind":"perm23","op": name, "record": label, "stream": st, "topic": tp}),
                                 ));
                             }
                             if !denied {
                                 res.bump("authorised_operations_performed");
+                                if !WIRE_READ_ONLY.contains(&opi) {
+                                    keep = false;
+                                }
                             } else {
                                 res.bump("operations_refused");
                             }
@@ -790,8 +898,15 @@ fn part23(pj: &PermJob, res: &mut JobResult) {
                     }
                 }
             }
-            w.finish();
+            if keep {
+                world = Some(w);
+            } else {
+                w.finish();
+            }
         }
+    }
+    if let Some(w) = world {
+        w.finish();
     }
 }
 
